@@ -1,6 +1,6 @@
 (* C13 - a bytecode file read and written back is the same program for its Python (partial: header). *)
 From Xdis Require Import Base.Prelude Base.Result Base.LE Model.Magic Model.Load Model.WriteHeader Gen.Magics Gen.RefMagics
-  Spec.Registry Spec.Header Proofs.HeaderProofs Proofs.WriteProofs.
+  Spec.Registry Spec.Header Proofs.HeaderDefs Proofs.HeaderProofs Proofs.WriteProofs.
 
 (* Header: for the magic of every final release (and the PyPy corpus magics) whose 4 magic bytes
    the writer reproduces, every 32-bit timestamp and size and every payload: what
